@@ -55,11 +55,15 @@ def main():
             files = files[::4]
         files += pipeline.repo_programs() + pipeline.corpus_programs("sem") + pipeline.corpus_programs("fun2core")[:: (3 if quick else 1)]
         files += [f for f, _ in stagecheck.inputs(chk, 40 if quick else 1000) if "/gen_C01/" in f]
+        files = pipeline.corpus_programs("regress") + [f for f in files if "/corpus/regress/" not in f]
         drivers = {}
         links = {}
         link_fail = []
         e2e_n = 0
         for path in files:
+            if "/corpus/regress/" in path:
+                lad.h.close()
+                lad.h = common.harness()  # minimised past failures: replayed in a fresh compiler process
             st = lad.stages(path)
             if st is None or "S7x" not in st or st["S7x"][0] != "OK":
                 continue
@@ -79,12 +83,13 @@ def main():
             # --- decidable content of the hypotheses of C01_composition (links) on this program
             ln = lad.ask("links %s" % path)
             links["OK" if ln and ln.startswith("OK") else (ln or "none").split(" ")[0]] = links.get("OK" if ln and ln.startswith("OK") else (ln or "none").split(" ")[0], 0) + 1
-            if ln and ln.startswith("FAIL"):
+            if ln and ln.startswith("FAIL") and not ('(call "main"' in st["S1"][1] and lad.ask("typ nomaincall %s" % lad.dump(st, "S1")) == "OK false"):
                 link_fail.append({"file": path, "links": ln[:200]})
             okA, msg, obj = native.assemble_x86(st["S7x"][1], d)
             if not okA:
                 found = True
-                chk.violation("C01:as-rejects", "GNU as rejects the x86-64 text of %s: %s" % (os.path.basename(path), msg[:200]), "as_%s.txt" % os.path.basename(path), "file=%s\nassembler:\n%s\n" % (path, msg))
+                unsafe = ("already defined" in msg or "redefin" in msg) and "S5" in st and lad.ask("typ labelsafe %s" % lad.dump(st, "S5")) == "OK false"
+                chk.violation("asm:label-collision:unsafe-names" if unsafe else "C01:as-rejects", "GNU as rejects the x86-64 text of %s: %s" % (os.path.basename(path), msg[:200]), "as_%s.txt" % os.path.basename(path), "file=%s\nassembler:\n%s\n" % (path, msg))
                 continue
             if np_ not in drivers:
                 drivers[np_] = native.real_driver(lad.h, np_, common.WORK)
@@ -109,10 +114,12 @@ def main():
                 if got_out != exp_out or got_status != exp_status:
                     found = True
                     chk.impl_oracle_failures.append({"file": path, "args": args, "expected": [exp_out.decode(errors="replace")[:80], exp_status], "got": [got_out.decode(errors="replace")[:80], got_status]})
-                    chk.violation("C01:native-differs", "%s args %s: native stdout/status %r/%s, source semantics (%s machine) %r/%s" % (os.path.basename(path), args, got_out[:60], got_status, ref_mach, exp_out[:60], exp_status),
+                    mc = '(call "main"' in st["S1"][1] and lad.ask("typ nomaincall %s" % lad.dump(st, "S1")) == "OK false"
+                    chk.violation("fun2core:main-called" if mc else "C01:native-differs", "%s args %s: native stdout/status %r/%s, source semantics (%s machine) %r/%s" % (os.path.basename(path), args, got_out[:60], got_status, ref_mach, exp_out[:60], exp_status),
                                   "native_%s.txt" % os.path.basename(path), "file=%s\nargs=%s\nreference=%s\nexpected_stdout=%r\nexpected_status=%d\nnative_stdout=%r\nnative_status=%s\nsource:\n%s\n" % (path, args, ref_mach, exp_out, exp_status, got_out, got_status, open(path).read()))
                 # --- model-only instance of C01_statement on a sample: source run = x86 machine run = native rendering
-                if e2e_n < (25 if quick else 400) and "/gen_C01/" not in path or e2e_n < 5:
+                mc_ = '(call "main"' in st["S1"][1] and lad.ask("typ nomaincall %s" % lad.dump(st, "S1")) == "OK false"
+                if not mc_ and (e2e_n < (25 if quick else 400) and "/gen_C01/" not in path or e2e_n < 5):
                     e2e_n += 1
                     el = lad.ask("e2e %s %s %d %d" % (path, ",".join(str(x) for x in args) if args else "-", lad.fuel, lad.asm_fuel))
                     mm = __import__("re").match(r"SRC (.*) X86 (.*) NATIVE (.*)$", el or "", __import__("re").S)
@@ -131,7 +138,7 @@ def main():
         if link_fail or chk.corr["disagreements"]:
             proofs_ok = False
             plog += json.dumps(link_fail[:5]) + json.dumps(chk.model_disagreements[:5])
-    if not proofs_ok and not found:
+    if not proofs_ok and not chk.has_failing_input():
         what = [("%s (%s): %s" % (n, r, dd)) for n, r, ok, dd in chk.obligations if not ok]
         chk.violation("C01:unproved", "proof obligations, links or correspondence broken, no failing run found: " + "; ".join(what)[:600], "unproved.txt", "\n".join(what) + "\n" + plog[-3000:], found_input=False)
     return chk.finish()
